@@ -103,8 +103,37 @@ def run_mc(module, cfg, name, workers=NCPU, timeout=3600, heap="8g"):
     """Cached wrapper: one TLC run per (module, cfg) per process."""
     k = (module, cfg)
     if k not in _MC_CACHE:
-        _MC_CACHE[k] = _run_mc(module, cfg, name, workers, timeout, heap)
+        _MC_CACHE[k] = _disk_cached_mc(module, cfg, name, workers, timeout, heap)
     return _MC_CACHE[k]
+
+
+def _disk_cached_mc(module, cfg, name, workers, timeout, heap):
+    """Mutant testing only (VERIF_REPO set to a scratch copy): the TLC run depends on the specification alone, not on the
+    repository, so its result is kept on disk keyed by the content of the specification. Registered checks (run against /repo)
+    never use this cache: they run TLC every time."""
+    if not _TAG:
+        return _run_mc(module, cfg, name, workers, timeout, heap)
+    h = hashlib.sha1()
+    for fn in sorted(os.listdir(SPEC)):
+        if fn.endswith(".tla") or fn == cfg:
+            with open(os.path.join(SPEC, fn), "rb") as f:
+                h.update(fn.encode()); h.update(f.read())
+    h.update(("%s|%s" % (module, cfg)).encode())
+    cdir = os.path.join(ROOT, "run", "mccache")
+    os.makedirs(cdir, exist_ok=True)
+    path = os.path.join(cdir, h.hexdigest() + ".json")
+    if os.path.exists(path):
+        try:
+            with open(path) as f:
+                return json.load(f)
+        except Exception:
+            pass
+    r = _run_mc(module, cfg, name, workers, timeout, heap)
+    tmp = path + ".%d.tmp" % os.getpid()
+    with open(tmp, "w") as f:
+        json.dump({k2: v for k2, v in r.items() if k2 != "text"} | {"text": ""}, f)
+    os.replace(tmp, path)
+    return r
 
 
 def _run_mc(module, cfg, name, workers=NCPU, timeout=3600, heap="8g"):
